@@ -1,4 +1,17 @@
+(** C07 — property theorems (statements in full; proofs are [exact] of lemmas in proof/C07_*.v). *)
 From Coq Require Import List NArith Bool.
-From SK Require Import lib.LGraph lib.Mono model.C07_Model proof.C07_Proof.
-Theorem C07_stub : forall x, opt_eqb x x = true. Proof. exact opt_eqb_refl. Qed.
-Print Assumptions C07_stub.
+From SK Require Import lib.Tok lib.LGraph lib.Mono model.C07_Model proof.C07_Spec proof.C07_History.
+Import ListNotations.
+
+(** (6) No answer depends on earlier queries.  The engine is a state machine over the class-level WL-histogram cache
+    (keyed by graph object AND node_attrs).  For EVERY list of graph objects, EVERY list of engines (arbitrary attribute
+    selections / filter flags / limits), EVERY sequence of queries (isomorphic, get_mappings, _pre_check, the boolean
+    subgraph tests, graph_isomorphism) and ANY VF2 behaviour whatsoever, the list of answers of the history started on
+    the empty cache equals, query by query, the answer of a fresh engine on an empty cache. *)
+Theorem C07_no_history :
+  forall (vf2b : bool -> (attrs -> attrs -> bool) -> (attrs -> attrs -> bool) -> graph -> graph -> bool)
+         (enum : (attrs -> attrs -> bool) -> (attrs -> attrs -> bool) -> graph -> graph -> list mapping)
+         (gs : list graph) (es : list engine) (qs : list query),
+    run_from vf2b enum gs es qs [] = map (fun q => fst (step vf2b enum gs es q [])) qs.
+Proof. exact (fun vf2b enum gs es qs => no_history vf2b enum gs es qs [] (cache_inv_nil gs)). Qed.
+Print Assumptions C07_no_history.
